@@ -122,10 +122,53 @@ def run_library(case):
     if case.get("base") is not None:
         base_arg = jnp.asarray(base_vec[0] if cfg["fact"] == "isotropic" else base_vec)
     with common.lib_call("solve_fixed_grid"):
-        fn = sk.fixed_grid_runner({**cfg, "has_base": base_arg is not None})
+        par = prior_params(case)
+        extra = {}
+        if "theta" in par:
+            extra["prior_theta"] = tuple(map(tuple, np.round(par["theta"], 12).tolist()))
+        if "length_scale" in par:
+            extra["prior_length_scale"] = float(par["length_scale"])
+        fn = sk.fixed_grid_runner({**cfg, **extra, "has_base": base_arg is not None})
         out = fn(jnp.asarray(C), jnp.asarray(tc), jnp.asarray(grid), float(case["damp"]), base_arg, jnp.asarray(std))
         out = jax.tree.map(np.asarray, out)
     return out
+
+
+def prior_params(case):
+    """Deterministic parameters of a non-IWP prior, derived from the case values (dense only)."""
+    cfg = case["cfg"]
+    kind = cfg.get("prior", "iwp")
+    d = cfg["d"]
+    tcv = np.asarray(case["tc"], float)
+    if kind == "ou":
+        # a stable-ish linear map built from the drawn Taylor coefficients (pure function of the case)
+        M = np.outer(np.cos(np.arange(1, d + 1) + tcv[0, 0]), np.sin(np.arange(1, d + 1) * 0.7 + tcv[-1, -1]))
+        return dict(theta=M - np.eye(d) * (0.5 + abs(tcv[0, -1])))
+    if kind == "matern":
+        return dict(length_scale=0.5 + abs(float(tcv[0, 0])) * 0.5)
+    return {}
+
+
+def prior_drift(case):
+    cfg = case["cfg"]
+    kind = cfg.get("prior", "iwp")
+    if kind == "iwp":
+        return None
+    import math
+
+    n, d = cfg["n"], cfg["d"]
+    q = n - 1
+    F = np.zeros((n * d, n * d))
+    for i in range(q):
+        F[i * d : (i + 1) * d, (i + 1) * d : (i + 2) * d] = np.eye(d)
+    par = prior_params(case)
+    if kind == "ou":
+        F[q * d :, q * d :] = par["theta"]
+    else:
+        z = math.sqrt(2 * (n - 0.5)) / par["length_scale"]
+        for i in range(n):
+            F[q * d :, i * d : (i + 1) * d] = -math.comb(n, i) * z ** (n - i) * np.eye(d)
+    return F
 
 
 def make_spec(case, mp=False):
@@ -134,7 +177,7 @@ def make_spec(case, mp=False):
     lin = "ts1" if cfg["lin"] in ("ts1", "residual") else "ts0"
     return K.Spec(n=cfg["n"], d=cfg["d"], field=field, C=C, lin=lin, fact=cfg["fact"], damp=case["damp"],
                   base=base_vec, calib=CALIB_REF[cfg["calib"]], mle_correction=cfg["calib"] == "mle",
-                  cinit=cfg.get("cinit", False), mp=mp)
+                  cinit=cfg.get("cinit", False), mp=mp, drift=prior_drift(case))
 
 
 def run_reference(case, mp=False, smooth=False, perturb=0.0):
